@@ -1012,15 +1012,8 @@ impl IoUring {
     }
 
     pub fn get_next_cqe(&mut self) -> Option<&IoUringCompletionQueueEntry> {
-        // The slot of the entry handed out by the previous call is given back to the kernel
-        // only now: the reference we returned points into it and the kernel may overwrite
-        // a slot as soon as the head has passed it.
-        if self.completion_queue.unreleased != 0 {
-            let num = self.completion_queue.unreleased;
-            self.completion_queue.unreleased = 0;
-            self.completion_queue.advance(num);
-        }
-        let shift = u32::from(self.flags.contains(IoUringParamFlags::IORING_SETUP_CQE32));
+        let big = self.flags.contains(IoUringParamFlags::IORING_SETUP_CQE32);
+        let shift = u32::from(big);
         let tail = self.completion_queue.acquire_ktail();
         let head = self.completion_queue.acquire_khead();
         // Free-running counters that wrap around: the ring is empty exactly when they're equal
@@ -1028,9 +1021,23 @@ impl IoUring {
             return None;
         }
         let ind = ((head & self.completion_queue.ring_mask) << shift) as usize;
-        let cqe = unsafe { self.completion_queue.entries.as_ptr().add(ind) };
-        self.completion_queue.unreleased = 1;
-        unsafe { cqe.as_ref() }
+        // The kernel may overwrite a slot as soon as the head has passed it, so the entry is
+        // copied out before its slot is released and the reference we hand out points at the copy.
+        // Releasing at once (not at the next call) matters: the kernel counts an unreleased
+        // entry as pending, a wait for one more completion would return immediately.
+        unsafe {
+            let cqe = self.completion_queue.entries.as_ptr().add(ind).cast::<u64>();
+            let words = if big { 4 } else { 2 };
+            core::ptr::copy_nonoverlapping(cqe, self.completion_queue.handed_out.as_mut_ptr(), words);
+        }
+        self.completion_queue.advance(1);
+        unsafe {
+            self.completion_queue
+                .handed_out
+                .as_ptr()
+                .cast::<IoUringCompletionQueueEntry>()
+                .as_ref()
+        }
     }
 }
 
@@ -1132,8 +1139,8 @@ pub(crate) struct UringCompletionQueue {
     pub(crate) ring_mask: u32,
     pub(crate) ring_entries: u32,
     pub(crate) entries: NonNull<IoUringCompletionQueueEntry>,
-    /// Entries handed out by `get_next_cqe` whose slots haven't been released yet
-    pub(crate) unreleased: u32,
+    /// Copy of the entry last handed out by `get_next_cqe` (room for a 32 byte entry)
+    pub(crate) handed_out: [u64; 4],
 }
 
 #[expect(dead_code)]
